@@ -78,6 +78,27 @@ def check_call(case):
     common.expect_raises(lambda: d(*bad), (TypeError,),
                          "C19:wrong-input-length-accepted",
                          "{} called on {} values".format(d, len(bad)))
+    # boxes and diagrams that live for one call only: made, called and
+    # dropped in a loop (each computes its own function, whatever was
+    # evaluated before and wherever the interpreter puts it)
+    import gc
+    from discopy import cartesian
+    for k in range(6):
+        n_in, n_out = (k + n) % 3, (k + len(ref)) % 3
+        fn = xspec.term_function("t%d" % k, n_out)
+        args = tuple("v%d" % i for i in range(n_in))
+        expected = fn(*args)
+        fresh = cartesian.Box("t", n_in, n_out, fn)
+        out = fresh(*args)
+        require(out == expected, "C19:short-lived-box",
+                lambda: "box {} of a loop, {} -> {}: returned {!r} expected "
+                "{!r}".format(k, n_in, n_out, out, expected))
+        out = (fresh >> cartesian.Id(n_out))(*args)
+        require(out == expected, "C19:short-lived-diagram",
+                lambda: "diagram {} of a loop: returned {!r} expected {!r}"
+                .format(k, out, expected))
+        del fresh
+        gc.collect()
     arities = [b["n"] for b, _ in spec["layers"]]
     return dict(nt=len(arities) >= 3 and any(0 in a for a in arities)
                 and any(max(a) >= 2 for a in arities),
